@@ -164,6 +164,28 @@ def contains(I, container, item):
     raise Unsupported("membership test in %r" % (container,))
 
 
+def known_length_iter(I, it):
+    """a heap sequence / map whose length is a known number on this path (e.g. a dict filled by an unrolled loop): its items"""
+    ctx = I.ctx
+    target = it.m if isinstance(it, MapIter) else it
+    if not (isinstance(target, SV) and isinstance(target.ty, (TSeq, TMap))):
+        return None
+    n = z3.simplify(z3.Select(ctx.field_array("$len"), ctx.ref_id(target)))
+    if not z3.is_int_value(n) or n.as_long() > 16:
+        return None
+    items = z3.Select(ctx.field_array("$item"), ctx.ref_id(target))
+    out = []
+    for k in range(n.as_long()):
+        kt = z3.simplify(z3.Select(items, z3.IntVal(k)))
+        if isinstance(it, MapIter):
+            key = SV(kt, it.m.ty.key or ANY)
+            val = map_get(I, it.m, key)
+            out.append(val if it.mode == "values" else VTuple([key, val]))
+        else:
+            out.append(ctx.typed(kt, target.ty.elem if isinstance(target.ty, TSeq) else None))
+    return out
+
+
 def map_has(I, m, key):
     ctx = I.ctx
     return z3.Select(z3.Select(ctx.field_array("$mhas"), ctx.ref_id(m)), ctx.to_val(key).t)
@@ -180,6 +202,7 @@ def materialise_seq(I, v, ty):
     ctx = I.ctx
     new = ctx.alloc(None, ty)
     idt = ctx.ref_id(new)
+    ctx.store_raw(idt, "$cls", z3.IntVal(ctx.E.classes.cid("abs:$" + ty.kind)))
     arr = z3.K(z3.IntSort(), Z.NONE)
     for k, x in enumerate(v.items):
         arr = z3.Store(arr, z3.IntVal(k), ctx.to_val(x).t)
@@ -206,6 +229,8 @@ def map_set(I, m, key, value):
     ctx.heap["$mval"] = z3.Store(val, idt, z3.Store(z3.Select(val, idt), kt, ctx.to_val(value).t))
     for f in ("$mhas", "$mval", "$len", "$item"):
         ctx.wrote(f, idt)
+    if ctx.store_hook is not None:
+        ctx.store_hook("map-store")
 
 
 def _is_identity_only(x):
@@ -975,6 +1000,8 @@ def call_method(I, obj, name, args, kwargs):
         if name == "insert":
             obj.items.insert(_const_index(args[0]), args[1])
             return None
+    if isinstance(obj, VDict) and getattr(obj, "sym", None) is not None:
+        return call_method(I, obj.sym, name, args, kwargs)
     if isinstance(obj, VDict):
         if name == "get":
             k = I.hashable(args[0])
